@@ -131,6 +131,18 @@ def generate(tier):
                 c.key += '|refused-or-honoured'
                 c.expect = 'any'
                 cases.append(c)
+    for kind, decl, mk in (('en', 'pub enum Ty<T, U> { A(T, #[educe(Clone(method(clone_m)))] K), B { x: U, #[educe(Clone(method(clone_m)))] y: K }, C }', 'Ty::<{T}, {U}>::A({t}, k(1))'),
+                           ('en2', 'pub enum Ty<T, U> { A(#[educe(Clone(method(clone_m)))] K, T, U), B }', 'Ty::<{T}, {U}>::A(k(1), {t}, {u})')):
+        for tl in ('Copy, Clone', 'Clone, Copy'):
+            src = '#[derive(Educe)]\n#[educe(%s)]\n%s\n' % (tl, decl)
+            src += ('pub fn check(r: &mut Rep) {\n'
+                    '    r.ck(probe!(Ty<String, u8>: Clone), 0, &|| "with a method the impl clones field by field: Ty<String, u8> must be Clone".to_string());\n'
+                    '    r.ck(!probe!(Ty<String, u8>: Copy), 1, &|| "Ty<String, u8> is Copy although String is not".to_string());\n'
+                    '    r.ck(probe!(Ty<u8, u16>: Copy) && probe!(Ty<u8, u16>: Clone), 2, &|| "Ty<u8, u16> must be Copy and Clone".to_string());\n'
+                    '    r.ck(!probe!(Ty<No, u8>: Clone), 3, &|| "Ty<No, u8> is Clone although No is not".to_string());\n'
+                    '    let a = %s;\n    let b = a.clone();\n'
+                    '    r.ck(matches!(&b, Ty::A(..)), 4, &|| "clone changed the variant".to_string());\n}\n') % mk.replace('{T}', 'String').replace('{U}', 'u8').replace('{t}', 'String::from("s")').replace('{u}', '7u8')
+            cases.append(Case('C07|generic-method|%s|%s' % (kind, tl), src, {'shape': kind, 'traits': tl}, expect='accept', run=True, depth=2))
     from .common import zoo_cases
     cases += zoo_cases('C07', 'Clone', 'Debug, PartialEq', 'Debug, PartialEq, Clone',
                        '    for (i, (a, _)) in vs.iter().enumerate() {\n        let c = a.clone();\n'
